@@ -18,6 +18,19 @@ Case kinds
        class must be accepted by each of its ancestors (child-accepts / ancestor-rejects
        witness otherwise); only fields whose override was explicitly declared by the class or
        by a class between it and that ancestor are exempt.
+  seq  load order: a tree of 2-7 classes below one top class (a chain of 2-4 levels plus further
+       children of classes on the chain), every class derived from its parent by any of the means a
+       schema author has (re-annotation of `f` - declared or not -, @make_mandatory, the Literal
+       discriminator `k` re-annotated or pinned with @add_const_fields, a constant over an inherited
+       constant, new fields / constants, extra policy); the plugins are loaded one after the other
+       with `check_types(cls)` *without* `recheck`, as `PGSchema.check_plugin` does (parents before /
+       after / between their children, several children of one parent, repetitions) vs model
+       `loadPlugin` (marks kept between the loads); oracle after every load that passes, as long as
+       nothing was refused before: instances of the loaded class and of everything reachable from it
+       - generated documents also carry explicit valid / foreign / ill-typed values in constant
+       fields - parsed by each ancestor. Plus documents parsed by family classes, validated value
+       (constants included) vs model `decode`.
+  enm  oracle only: the same "marked subclass" pattern with Enum discriminators (outside the grammar).
   pln  oracle only: override pairs with the plain builtins `str/int/float/bool` (pydantic's
        coercing validators + the schema Config's anystr limits; outside the Lean grammar) on
        either side: parent `f: b`, child `f: a`; if construction + `check_types` let the child
@@ -42,7 +55,8 @@ LEAN = dict(
         "checked_overrides_are_subtypes", "installedStrings_sound_except", "qualhashsum_not_subtype",
         "classTable_unsound_with_qualhashsum", "optional_not_subtype", "literal_subtype_iff", "literal_superset_not_subtype",
         "legacy_crash_breaks_union_subtype", "checkTypes_visits_ancestors", "intermediate_widening_refused", "declaration_not_inherited",
-        "new_field_below_forbidding_parent_refused", "nested_literal_refused"]],
+        "new_field_below_forbidding_parent_refused", "nested_literal_refused",
+        "loads_examine_every_ancestor", "load_examines_unmarked", "child_refused_whatever_is_marked", "refused_class_passes_next_load"]],
     drivers=["drv_cod"],
 )
 
@@ -107,6 +121,8 @@ def impl(case):
         return _impl_anc(case)
     if kind == "pln":
         return _impl_pln(case)
+    if kind == "enm":
+        return _impl_enm(case)
     from metador_core.util.typing import is_subtype
 
     if kind == "sub":
@@ -207,7 +223,7 @@ def _declared_by(fam, name):
     return set(cd.get("overrides", [])) | {k for k, _ in cd["consts"] if k in inherited}
 
 
-def _class_oracle(F, fam, name, rng, n_inst, oracle, tags, root):
+def _class_oracle(F, fam, name, rng, n_inst, oracle, tags, root, witness=None):
     """Every generated instance the class accepts must be accepted, serialised, by each of its
     ancestors; only the fields whose incompatible override was explicitly declared (by the class
     itself or by a class between it and that ancestor) are exempt."""
@@ -222,8 +238,8 @@ def _class_oracle(F, fam, name, rng, n_inst, oracle, tags, root):
         tags.append("unregistered-intermediate")
     consts = [k for k, _ in G.eff_consts(fam, name)]
     insts = []
-    for i in range(n_inst):
-        inp = gen_input(rng, fam, name, 2)
+    docs = [witness[1]] if witness and witness[0] == name else []  # a replay names its document
+    for inp in docs + [gen_input(rng, fam, name, 2) for i in range(n_inst)]:
         try:
             o = child.parse_obj(json.loads(json.dumps(inp)))
         except Exception:
@@ -257,7 +273,7 @@ def _class_oracle(F, fam, name, rng, n_inst, oracle, tags, root):
                 if bad and bad <= declared:
                     continue  # only explicitly declared overrides are affected
                 oracle.append(dict(kind="child-instance-rejected-by-parent", child=name, parent=anc, input=inp, serialised=jd,
-                                   fields=sorted(bad), error=("%s: %s" % (type(e).__name__, e))[:300], fam=fam, root=root))
+                                   fields=sorted(bad - declared), error=("%s: %s" % (type(e).__name__, e))[:300], fam=fam, root=root))
                 return
         below = anc
 
@@ -285,7 +301,7 @@ def _impl_ovr(case):
             # oracle: every reachable class below a schema base accepts ... what its children produce
             rng = random.Random(case.get("seed", 0))
             for name in _reachable(fam, case["root"]):
-                _class_oracle(F, fam, name, rng, case.get("n_inst", 12), oracle, tags, case["root"])
+                _class_oracle(F, fam, name, rng, case.get("n_inst", 12), oracle, tags, case["root"], case.get("witness"))
     finally:
         F.close()
     return dict(out=out, oracle=oracle[:5], tags=sorted(set(tags)))
@@ -344,7 +360,7 @@ def _impl_seq(case):
                         continue
                     examined.add((n, bool(refused)))
                     k = len(sink)
-                    _class_oracle(F, fam, n, rng, case.get("n_inst", 8), sink, tags, name)
+                    _class_oracle(F, fam, n, rng, case.get("n_inst", 8), sink, tags, name, case.get("witness"))
                     for d in sink[k:]:
                         d["loads"] = list(case["loads"])
                         if refused:
@@ -425,6 +441,104 @@ def _impl_pln(case):
         finally:
             F.close()
     return dict(out=None, oracle=oracle[:8], tags=sorted(set(tags)), n_ok=n_ok)
+
+
+ENUMS = {
+    "str": ("str", [["circle", "circle"], ["square", "square"]]),
+    "int": ("int", [["one", 1], ["two", 2]]),
+    "plain": (None, [["aa", "a"], ["bb", "b"]]),
+}
+
+
+def _impl_enm(case):
+    """Oracle only (Enum types are outside the Lean grammar): the "marked subclass" pattern with an
+    Enum discriminator. Chain Ga (kind: E or Optional[E], size: int) <- ... <- leaf; a class may pin
+    `kind` with @add_const_fields (an Enum member, a raw value, a foreign value, a member of another
+    Enum). If class construction and `check_types` let the chain through, whatever a class accepts
+    (documents with and without an explicit value in the discriminator field) must serialise to
+    something each of its ancestors accepts."""
+    import enum
+    import typing
+
+    from metador_core.schema import MetadataSchema
+    from metador_core.schema import decorators as D
+    from metador_core.schema.core import check_types
+
+    oracle, tags = [], []
+    mixin, members = ENUMS[case["enum"]]
+    bases = {"str": (str, enum.Enum), "int": (int, enum.Enum), None: (enum.Enum,)}[mixin]
+    E = enum.Enum("Kind", [tuple(m) for m in members], type=bases[0]) if mixin else enum.Enum("Kind", [tuple(m) for m in members])
+    Other = enum.Enum("Other", [("zz", "zz"), ("circle", "circle")], type=str)
+    hint = typing.Optional[E] if case.get("optional") else E
+    meta = type(MetadataSchema)
+    classes, prev = [], MetadataSchema
+    try:
+        for i, spec in enumerate(case["chain"]):
+            name = "E%d" % i
+            body = {"__module__": __name__, "__qualname__": name, "__annotations__": {}}
+            if i == 0:
+                body["__annotations__"] = {"kind": hint, "size": int}
+            cls = meta(name, (prev,), body)
+            if spec is not None:
+                how, v = spec
+                val = {"member": lambda: E[v], "raw": lambda: v, "other": lambda: Other[v]}[how]()
+                cls = D.add_const_fields({"kind": val}, override=bool(case.get("override")))(cls)
+            classes.append(cls)
+            prev = cls
+        check_types(classes[-1])
+    except (TypeError, ValueError, KeyError) as e:
+        return dict(out=None, oracle=[], tags=["refused:%s" % type(e).__name__], n_ok=0)
+    tags.append("check-ok")
+    if any(sp is not None for sp in case["chain"]):
+        tags.append("enum-pinned")
+    for ci in range(1, len(classes)):
+        child = classes[ci]
+        if case.get("override") and any(sp is not None for sp in case["chain"][1:ci + 1]):
+            continue  # `override=True`: explicitly declared
+        for doc in case["docs"]:
+            try:
+                o = child.parse_obj(json.loads(json.dumps(doc)))
+                jd = o.json_dict()
+            except Exception:
+                continue
+            tags.append("child-instances")
+            if "kind" in doc:
+                tags.append("explicit-constant-input")
+            hit = False
+            for ai in range(ci - 1, -1, -1):
+                try:
+                    classes[ai].parse_obj(json.loads(json.dumps(jd)))
+                except Exception as e:
+                    oracle.append(dict(kind="enum-child-instance-rejected-by-parent", child="E%d" % ci, parent="E%d" % ai, input=doc, serialised=jd, fields=sorted(_bad_fields(e)),
+                                       error=("%s: %s" % (type(e).__name__, e))[:300], enum=case["enum"], chain=case["chain"]))
+                    hit = True
+                    break
+            if hit:
+                break
+    return dict(out=None, oracle=oracle[:3], tags=sorted(set(tags)), n_ok=1)
+
+
+def gen_enm_cases(ctx):
+    """Small scope, complete: Enum flavour x Optional or not x chains of 2-4 classes with a pin at
+    one or two levels x how the constant is given."""
+    out = []
+    for en, (mixin, members) in sorted(ENUMS.items()):
+        vals = [m[1] for m in members]
+        docs = [{"size": 1}] + [{"size": 2, "kind": v} for v in vals] + [{"size": 3, "kind": x} for x in ("triangle", 17, None, True, [vals[0]], members[0][0])]
+        pins = [("member", members[0][0]), ("member", members[1][0]), ("raw", vals[0]), ("raw", "triangle"), ("other", "zz"), ("other", "circle")]
+        for optional in (False, True):
+            for depth in (2, 3, 4):
+                for at in range(1, depth):
+                    for pin in pins:
+                        chain = [None] * depth
+                        chain[at] = list(pin)
+                        out.append(dict(kind="enm", enum=en, optional=optional, chain=chain, docs=docs))
+                        if at + 1 < depth and pin[0] == "member":
+                            chain2 = list(chain)
+                            chain2[at + 1] = ["member", members[1][0]]
+                            out.append(dict(kind="enm", enum=en, optional=optional, chain=chain2, docs=docs, override=True))
+                            out.append(dict(kind="enm", enum=en, optional=optional, chain=chain2, docs=docs))
+    return out
 
 
 def _bad_fields(e):
@@ -569,7 +683,7 @@ def compare(case, ir, mo):
     kind = case["kind"]
     if kind == "anc":
         return None
-    if kind == "pln":
+    if kind in ("pln", "enm"):
         return None
     nf = len(fam_lines(case["fam"]))
     if kind == "seq":
@@ -1401,7 +1515,9 @@ def run(ctx):
                 "with a witness search for every accepted pair; (acc) single-field validation on a boundary corpus per type; (ovr) chains of 2-4 classes (plugins and plain "
                 "intermediate classes) in which every class below the top may re-annotate the inherited field (declared or not), add required/Optional/defaulted fields or "
                 "constants (also below a forbidding parent) and change the extra policy, nested use, decorators; class construction + check_types vs model, and instances of every "
-                "reachable class parsed by each of its ancestors; (pln, oracle only) override pairs with the plain builtins str/int/float/bool on either side; (anc) installed schemas parsed by every ancestor. Non-trivial = tagged.")
+                "reachable class parsed by each of its ancestors; (seq) trees of 2-7 classes (chain of 2-4 levels + siblings; re-annotation, @make_mandatory, Literal discriminator pinned by @add_const_fields, at every level), "
+                "the plugins loaded in some order by check_types without recheck vs model loadPlugin with the marks kept, instances (also with explicit values in constant fields) of everything reachable parsed by every ancestor after each load that passes, "
+                "documents decoded by family classes vs model; (enm, oracle only) Enum discriminators pinned by constants; (pln, oracle only) override pairs with the plain builtins str/int/float/bool on either side; (anc) installed schemas parsed by every ancestor. Non-trivial = tagged.")
     ctx.assumptions += [
         "date/time types are outside the grammar (excluded by the property)",
         "runtype 0.3.5 `<=` on canonical types, typing's normalisation of Union/Optional/Literal and pydantic 1.10 validation are modelled for the grammar and compared on every case",
@@ -1423,6 +1539,18 @@ def run(ctx):
     C12.ensure_nf(ctx, seq, report=False)
     ctx.correspond("load-order", MOD, seq, lines, "drv_cod", compare=compare, timeout=120)
     run_pending_probes(ctx)
+    enm = [c for c in corpus if c["kind"] == "enm"] + gen_enm_cases(ctx)
+    if not ctx.quick:
+        ctx.exhaustive_spaces.append("Enum discriminators: {str, int, plain Enum} x {E, Optional[E]} x chains of 2-4 classes x pin (member, raw value, foreign value, member of another Enum) at every level, second pin below: %d chains" % len(enm))
+    n_enm = 0
+    for c, r in zip(enm, pool.run(MOD, "impl", enm, timeout=120)):
+        if "ok" not in r:
+            raise lean.InfraError("harness failed on %s: %s" % (core.canon(c)[:200], core.canon(r)[:400]))
+        for d in r["ok"]["oracle"]:
+            ctx.oracle_hit(c, d, group="enum-discriminator")
+        n_enm += r["ok"]["n_ok"]
+        ctx.note_case(c, r["ok"]["tags"], len(c["docs"]))
+    ctx.notes.append("enum discriminators: %d chains, %d let through by class construction + check_types" % (len(enm), n_enm))
     pln = [c for c in corpus if c["kind"] == "pln"] + gen_pln_cases(ctx)
     n_pln = 0
     for c, r in zip(pln, pool.run(MOD, "impl", pln, timeout=300)):
@@ -1596,6 +1724,8 @@ def signature(case, detail):
         if _is_f12(a, b):
             return F12_SIG
         return "%s:subtype-unsound:%s<%s" % (ID, G.ty_str(a), G.ty_str(b))
+    if kind == "enum-child-instance-rejected-by-parent":
+        return "%s:enum-constant-rejected-by-parent:%s:%s" % (ID, detail.get("enum"), ",".join(detail.get("fields") or []))
     if kind == "accepted-after-refusal":
         return "C13:accepted-after-refusal"
     if kind == "child-instance-rejected-by-parent":
@@ -1664,6 +1794,8 @@ def shrink(ctx, case, detail):
             best = min(r["ok"]["oracle"], key=lambda d: len(json.dumps([d["sub"], d["base"]])))
             return dict(kind="pln", pairs=[[best["sub"], best["base"]]], seed=case.get("seed", 0)), best
         return dict(case, pairs=[[a, b]]), detail
+    if kind == "enum-child-instance-rejected-by-parent":
+        return dict(case, docs=[detail["input"]]), detail
     if kind in ("child-instance-rejected-by-parent", "accepted-after-refusal"):
         r = pool.run_one(MOD, "shrink_ovr", dict(case=case, detail=detail), timeout=600)
         if "ok" in r and r["ok"]:
@@ -1696,24 +1828,24 @@ def shrink_ovr(req):
     if not det:
         return None
     seq = cur.get("kind") == "seq"
+    if isinstance(det.get("input"), dict):
+        # name the document, so that a smaller family does not have to find it again by chance
+        c = dict(cur, witness=[det["child"], det["input"]])
+        d = fails(c)
+        if d:
+            cur, det = c, d
     if seq and cur.get("inputs"):
         c = dict(cur, inputs=[])
         d = fails(c)
         if d:
             cur, det = c, d
-    # drop unused classes (from the end), then loads, then fields and constants
-    i = len(cur["fam"]) - 1
-    while i >= 0 and budget[0] > 0:
-        nm = cur["fam"][i]["name"]
-        if nm != cur.get("root"):
-            c = dict(cur, fam=[cd for k, cd in enumerate(cur["fam"]) if k != i])
-            if seq:
-                c["loads"] = [x for x in cur["loads"] if x != nm]
-            d = fails(c) if (not seq or c["loads"]) else None
+    # loads first (does the order matter at all?), then unused classes (from the end), then fields and constants
+    if seq:
+        if cur["loads"] != [det["child"]] and G.get_cd(cur["fam"], det["child"]).get("plugin"):
+            c = dict(cur, loads=[det["child"]])  # does the order matter at all?
+            d = fails(c)
             if d:
                 cur, det = c, d
-        i -= 1
-    if seq:
         j = 0
         while j < len(cur["loads"]) and len(cur["loads"]) > 1 and budget[0] > 0:
             c = dict(cur, loads=cur["loads"][:j] + cur["loads"][j + 1:])
@@ -1722,11 +1854,25 @@ def shrink_ovr(req):
                 cur, det = c, d
             else:
                 j += 1
-    elif cur["root"] != det["child"]:
+    if not seq and cur["root"] != det["child"]:
         c = dict(cur, root=det["child"])
         d = fails(c)
         if d:
             cur, det = c, d
+    i = len(cur["fam"]) - 1
+    while i >= 0 and budget[0] > 0:
+        nm = cur["fam"][i]["name"]
+        if nm != cur.get("root"):
+            c = dict(cur, fam=[cd for k, cd in enumerate(cur["fam"]) if k != i])
+            if seq:
+                c["loads"] = [x for x in cur["loads"] if x != nm]
+                par = cur["fam"][i]["parent"]
+                if not c["loads"] and par and G.get_cd(cur["fam"], par).get("plugin"):
+                    c["loads"] = [par]  # the witness may already be one level up
+            d = fails(c) if (not seq or c["loads"]) else None
+            if d:
+                cur, det = c, d
+        i -= 1
     for ci in range(len(cur["fam"])):
         for part in ("fields", "consts", "overrides", "mandatory"):
             j = 0
@@ -1743,6 +1889,21 @@ def shrink_ovr(req):
             fam2 = json.loads(json.dumps(cur["fam"]))
             fam2[ci]["extra"] = None
             c = dict(cur, fam=fam2)
+            d = fails(c)
+            if d:
+                cur, det = c, d
+    # the document: named in the case, then made as small as possible
+    if isinstance(det.get("input"), dict) and budget[0] > 0:
+        c = dict(cur, witness=[det["child"], det["input"]], n_inst=0)
+        d = fails(c)
+        if d:
+            cur, det = c, d
+
+            def still(doc):
+                return fails(dict(cur, witness=[det["child"], doc]))
+
+            doc = C12._shrink_json(det["input"], still, budget)
+            c = dict(cur, witness=[det["child"], doc])
             d = fails(c)
             if d:
                 cur, det = c, d
@@ -1769,7 +1930,7 @@ def shrink_anc(req):
 def search(ctx):
     for s in range(1, 3):
         sub = core.Ctx(ID, "quick", ctx.seed + 7919 * s)
-        cases = gen_seq_cases(sub) + gen_ovr_cases(sub) + gen_sub_cases(sub) + gen_pln_cases(sub)
+        cases = gen_seq_cases(sub) + gen_enm_cases(sub) + gen_ovr_cases(sub) + gen_sub_cases(sub) + gen_pln_cases(sub)
         res = pool.run(MOD, "impl", cases, timeout=300)
         ctx.search_log.append("seed %d: %d cases (subtype pairs with witness search, override families), oracle only" % (sub.seed, len(cases)))
         known = {k.get("signature") for k in core.load_findings() if k.get("kind") == "known"}
@@ -1792,7 +1953,7 @@ def replay(ctx, rep):
     for d in (r.get("ok") or {}).get("oracle", []):
         print("witness: loads=%s child=%s parent=%s fields=%s input=%s serialised=%s\n  %s" % (",".join(case.get("loads", [])) or "-", d.get("child"), d.get("parent"), d.get("fields"),
                                                                                          json.dumps(d.get("input")), json.dumps(d.get("serialised")), d.get("error")))
-    if case.get("kind") not in ("anc", "pln"):
+    if case.get("kind") not in ("anc", "pln", "enm"):
         C12.load_nf(ctx)
         print("model:", lean.run_driver("drv_cod", [lines(case)]))
     return 1 if ("ok" in r and r["ok"]["oracle"]) else 0
